@@ -8,61 +8,61 @@ BUILT = json.load(open(os.path.join(ROOT, "tools", "built.json")))
 
 P = {
  "C01": ("exploration", "E1", "bounded exhaustive enumeration of messages over value menus + full scalar sweeps, round-trip oracle on the real codec",
-         "Every message with up to 2 body attributes over the full value menu in every order x 8 tails (3 on a reduced menu; thorough: 3 on the full menu), every header of the header menu, and full sweeps of every small scalar domain are built, encoded, decoded and compared through public accessors; sizes checked against the header. Exhaustive within those stated bounds, no sampling.",
+         "Every message with up to 2 body attributes over the full value menu in every order x 8 tails (3 on a reduced menu; thorough: 3 on the full menu), every header of the header menu, and full sweeps of every small scalar domain are built, encoded, decoded and compared through public accessors; sizes checked against the header. Exhaustive within those stated bounds, no sampling. Also: deep messages (long runs, 3..=257 / 1000 repeats, every rotation of one value per kind, all 4-sequences over 9 kinds), an attribute behind a filler at every 4-aligned body offset up to 4200 (thorough 16,400), around multiples of 4096 and up to the 65,532-byte maximum, lists of up to 32,760 entries, special IPv6 forms and XOR addresses with special wire forms; the decoded message is encoded again; every message also under another encoder configuration (reused encoder, default context, custom / random padding).",
          "values outside the menus / sweeps; USERNAME compared after a hand-written OpaqueString table", "4/C01"),
  "C02": ("exploration", "E1", "bounded exhaustive differential enumeration: real encoder vs an independent RFC reference codec, plus exhaustive ignorable-bit perturbation",
-         "Subject bytes are compared byte-for-byte with R-codec (independent writer from the RFCs) for every message of the C01 space at L<=2, all 16384 message types, every XOR id of the walking-bit family, all 400 error codes, the RFC 5769 vectors; every ignorable padding / reserved bit pattern (all 2^k when k<=10) must not change what is decoded.",
+         "Subject bytes are compared byte-for-byte with R-codec (independent writer from the RFCs) for every message of the C01 space at L<=2, all 16384 message types, every XOR id of the walking-bit family, all 400 error codes, the RFC 5769 vectors; every ignorable padding / reserved bit pattern (all 2^k when k<=10) must not change what is decoded. Also the deep, offset and long-list families of C01, special IPv6 forms and XOR addresses whose wire form is special; decoded values are also compared with the value types' own equality.",
          "R-codec is written by the same author as the harness (cross-checked against RFC 5769 vectors at start-up); two RFC ambiguities follow the library's reading", "4/C02"),
  "C03": ("fault_enumeration", "E2+E3", "exhaustive single-fault walk (every fault kind at every position) over enumerated seeds, fed to decoder x 17 option sets, reassembler x chunkings and clients in every reachable credential state",
-         "Every single fault of a finite structure-aware fault alphabet at every position of every seed (all L<=2 reduced-menu messages, RFC vectors, every reply kind of the reference server) is decoded under all 16 option combinations and the context-less decoder, fed to the stream reassembler and delivered to clients in every credential state reachable in <=6 operations; no panic, size relation, prefix-only dependence, client stays usable.",
+         "Every single fault of a finite structure-aware fault alphabet at every position of every seed (all L<=2 reduced-menu messages, RFC vectors, every reply kind of the reference server) is decoded under all 16 option combinations and the context-less decoder, fed to the stream reassembler and delivered to clients in every credential state reachable in <=6 operations; no panic, size relation, prefix-only dependence, client stays usable. Also integrity / fingerprint tails behind a filler at every body offset of the offset family (decoders, get_input_text, clients), 19 UTF-8 / quoting / normalisation injections, and a Trace-level logger so that log arguments are evaluated.",
          "byte strings outside the enumerated fault families (the statement's 'random bytes' are replaced by deterministic families)", "4/C03"),
  "C04": ("fault_enumeration", "E1xE2", "exhaustive single-bit fault walk over protected prefix and MAC of enumerated messages x keys x tails, oracle = independent HMAC/MD5/SHA reference",
-         "For every enumerated message x legal integrity tail x key: wire MAC equals the independent HMAC over the RFC input, key bytes equal the independent derivation, validation succeeds, every single-bit fault in protected bytes and MAC and every near-miss key is rejected, appended legal tails leave validation unchanged.",
+         "For every enumerated message x legal integrity tail x key: wire MAC equals the independent HMAC over the RFC input, key bytes equal the independent derivation, validation succeeds, every single-bit fault in protected bytes and MAC and every near-miss key is rejected, appended legal tails leave validation unchanged. Also keys longer than the hash block (63..300-byte passwords, multi-block long-term credentials), every protected-prefix length 0..=300, the deep and offset families, and every construction route of the validating decoders (builder call orders, repeated calls, clones).",
          "HMAC collision resistance is not what is checked; bounded to the enumerated messages and keys", "4/C04"),
  "C05": ("model_checking", "E3", "explicit-state breadth-first exploration of the real StunClient over an event alphabet (sends, timer calls at region representatives, replies of every kind), invariant monitor per transaction",
-         "All event sequences up to the stated depth and all deviation-bounded runs to completion are executed on the real client; a per-transaction monitor checks at most one final outcome and silence afterwards on every transition. States deduplicated on the full feature-gated snapshot.",
+         "All event sequences up to the stated depth and all deviation-bounded runs to completion are executed on the real client; a per-transaction monitor checks at most one final outcome and silence afterwards on every transition. States deduplicated on the full feature-gated snapshot. Also configurations with request methods 0x080 / 0xFFF / 0x100 / 0xA5A, indications / requests carrying an outstanding id, sends that fail for lack of buffer space.",
          "time abstraction by region representatives; depth / deviation bounds as reported in the evidence", "4/C05"),
  "C06": ("model_checking", "E3", "explicit-state exploration of timer-call schedules (exact / early / late / very late representatives) over a configuration grid, integer-nanosecond schedule monitor",
-         "Every sequence of timer calls at region representatives for 1-2 staggered requests over a grid of RTO/Rc/Rm/granularity configurations is run to completion on the real client and compared with the RFC 8489 schedule arithmetic in integer nanoseconds, including byte-identical retransmissions and the exact failure instant.",
+         "Every sequence of timer calls at region representatives for 1-2 staggered requests over a grid of RTO/Rc/Rm/granularity configurations is run to completion on the real client and compared with the RFC 8489 schedule arithmetic in integer nanoseconds, including byte-identical retransmissions and the exact failure instant. Also 2-4 requests sharing the timer with staggers derived from the schedule so that deadlines coincide exactly, RTO from 1 ms to 70 s, Rc 1..10.",
          "region representatives instead of all instants; grid of configurations", "4/C06"),
  "C07": ("model_checking", "E3", "explicit-state exploration of the real client with short-term credentials against replies built by an independent reference codec/HMAC",
-         "All sequences up to the stated depth of sends, timer calls and replies of every authentication kind (valid MI / SHA256 / both / none / corrupted / other password / other algorithm / duplicate; responses, errors, indications) on both transports with the algorithm preset or learned; monitor decides delivery, outgoing USERNAME+integrity and the failure reason from independently computed MACs.",
+         "All sequences up to the stated depth of sends, timer calls and replies of every authentication kind (valid MI / SHA256 / both / none / corrupted / other password / other algorithm / duplicate; responses, errors, indications) on both transports with the algorithm preset or learned; monitor decides delivery, outgoing USERNAME+integrity and the failure reason from independently computed MACs. Also four requests in flight over a narrow alphabet, application attribute lists that pre-populate USERNAME / MI / SHA256, three credential sets (incl. a 129-byte password and one rewritten by OpaqueString enforcement), methods 0x080 / 0xFFF.",
          "password / username menu of size one; depth bound", "4/C07"),
  "C08": ("model_checking", "E3", "explicit-state exploration of the real client with long-term credentials against an RFC 8489 9.2.4 reference server",
-         "All server behaviours up to the stated number of exchanges drawn from the 401/438/success/error alphabet on both transports; every emitted request is judged by an independent implementation of RFC 8489 9.2.4 acceptance; delivery only of replies whose MAC verifies under the independently derived key.",
+         "All server behaviours up to the stated number of exchanges drawn from the 401/438/success/error alphabet on both transports; every emitted request is judged by an independent implementation of RFC 8489 9.2.4 acceptance; delivery only of replies whose MAC verifies under the independently derived key. Also three realms (one differing only in letter case), challenge attributes in either order, three credential sets, a second method.",
          "two pinned deviations are recorded as known findings; alphabets as stated", "4/C08"),
  "C09": ("exploration", "E1", "exhaustive enumeration of all 87,380 attribute-kind sequences of length <=8 with correct/incorrect checksum subsets under every decoder option set, oracle = 12-line RFC admit rule",
-         "All sequences over {ordinary, MI, SHA256, FINGERPRINT} up to length 8 are built by the reference codec and decoded by the real decoder under all 16 option sets; result must equal the RFC 8489 ordering rule transcribed independently; validation may fail only because of an admitted attribute; the agent's iterator is compared on all sequences through hook H2.",
+         "All sequences over {ordinary, MI, SHA256, FINGERPRINT} up to length 8 are built by the reference codec and decoded by the real decoder under all 16 option sets; result must equal the RFC 8489 ordering rule transcribed independently; validation may fail only because of an admitted attribute; the agent's iterator is compared on all sequences through hook H2. Also every sequence of length <=5 with the first ordinary attribute a blob of 1000 / 4100 / 20,000 / 65,000 bytes, and every construction route of every decoder configuration on sequences of length <=4.",
          "ordinary attributes are represented by PRIORITY", "4/C09"),
  "C10": ("fault_enumeration", "E1xE2+E3", "exhaustive single-bit and single-byte fault walk over every position of enumerated fingerprinted messages; explicit-state exploration of fingerprint-enforcing clients",
-         "CRC on the wire equals an independent CRC-32 for every enumerated message; every single-bit fault at every bit and 4 byte-substitution classes at every byte are never accepted as carrying a valid FINGERPRINT; fingerprint clients are explored with valid / corrupted / absent / misplaced FINGERPRINT replies under every mechanism.",
+         "CRC on the wire equals an independent CRC-32 for every enumerated message; every single-bit fault at every bit and 4 byte-substitution classes at every byte are never accepted as carrying a valid FINGERPRINT; fingerprint clients are explored with valid / corrupted / absent / misplaced FINGERPRINT replies under every mechanism. Also every message length 0..=300 (1100), the deep and offset families with sparse walks up to the 64 KiB maximum, construction routes of the validating decoders, and client replies with a wrong FINGERPRINT followed by a decoy attribute or a second FINGERPRINT.",
          "bounded to enumerated messages; CRC-32 detects all single-bit and single-byte errors by construction, so the walk checks the plumbing, not the polynomial", "4/C10"),
  "C11": ("model_checking", "E3", "explicit-state exploration with a faithful timer controller (armed timer fired with every lateness representative) and free timer calls, deadline monitor in integer nanoseconds",
-         "For up to 3-4 staggered requests with replies, rejected buffers and timer calls, every notification is compared with the independently computed earliest pending deadline and remaining time; under the faithful controller every request must reach a final outcome by the first call at or after its deadline.",
+         "For up to 3-4 staggered requests with replies, rejected buffers and timer calls, every notification is compared with the independently computed earliest pending deadline and remaining time; under the faithful controller every request must reach a final outcome by the first call at or after its deadline. Also five requests, RTO 3 s / 70 s, indications / requests carrying an outstanding id, sends refused for lack of buffer space.",
          "region representatives; depth bound", "4/C11"),
  "C12": ("model_checking", "E3", "explicit-state exploration over limits 0-4 and directed fill/drain/refill families at limit 10, counting monitor",
-         "All histories up to depth 2*limit+4 over sends, indications, every final-outcome kind and rejected buffers for limits 0..4, plus enumerated fill-drain-refill families at the default limit 10; send_request must be refused exactly when the independently counted unfinished requests equal the limit, and a refusal changes nothing (snapshot equality).",
+         "All histories up to depth 2*limit+4 over sends, indications, every final-outcome kind and rejected buffers for limits 0..4, plus enumerated fill-drain-refill families at the default limit 10; send_request must be refused exactly when the independently counted unfinished requests equal the limit, and a refusal changes nothing (snapshot equality). Also limit 300, indications / requests carrying an outstanding id.",
          "depth bound; limit-10 covered by directed families, not all histories", "4/C12"),
  "C13": ("model_checking", "E1xE3", "bounded exhaustive enumeration of application attribute lists x credential states reached by explicit-state exploration, independent parser and MAC verifier as oracle",
-         "Every application attribute list up to length 3 over a 12-entry alphabet (including pre-populated credential / integrity / fingerprint attributes) is sent as request and indication from every credential-state representative; each emitted packet is parsed by the independent TLV reader and checked for order, uniqueness, replacement and verifying MAC/CRC; retransmissions compared byte-for-byte.",
+         "Every application attribute list up to length 3 over a 12-entry alphabet (including pre-populated credential / integrity / fingerprint attributes) is sent as request and indication from every credential-state representative; each emitted packet is parsed by the independent TLV reader and checked for order, uniqueness, replacement and verifying MAC/CRC; retransmissions compared byte-for-byte. Lists up to length 4 (5 thorough); 14 credential states incl. a second 401 for the realm in another letter case / another realm, three credential sets, send buffers pre-filled with 0xA5, and clients built with the optional builder calls in all six orders.",
          "alphabet of application attributes", "4/C13"),
  "C14": ("exploration", "E1", "exhaustive enumeration of every buffer length 0..=needed+8 x pre-fills for enumerated messages, and of every attribute-byte total around the 64 KiB limit",
-         "For every enumerated small message every buffer length from 0 to needed+8 with three pre-fills is tried; success iff long enough, identical bytes, untouched tail; large messages walk every total from 65,480 to 65,540 and beyond with the boundary crossed by the first, middle and last attribute.",
+         "For every enumerated small message every buffer length from 0 to needed+8 with three pre-fills is tried; success iff long enough, identical bytes, untouched tail; large messages walk every total from 65,480 to 65,540 and beyond with the boundary crossed by the first, middle and last attribute. Also the limit crossed by one to three value-less attributes and by one representative of every attribute kind.",
          "bounded to enumerated messages", "4/C14"),
  "C15": ("model_checking", "E3", "explicit-state enumeration of all transaction chains over a delay x gap menu on the real client, double-precision RFC 6298 reference",
-         "All sequences of up to 5 (7 thorough) transactions over the response-delay x idle-gap menu, and all periodic chains of period <=3 repeated to 300 transactions, for a grid of RTO/granularity configurations; the RTO read through the hook and the announced duration are compared with a double-precision RFC 6298 reference within the stated tolerance.",
+         "All sequences of up to 5 (7 thorough) transactions over the response-delay x idle-gap menu, and all periodic chains of period <=3 repeated to 300 transactions, for a grid of RTO/granularity configurations; the RTO read through the hook and the announced duration are compared with a double-precision RFC 6298 reference within the stated tolerance. Also chains with short-term and long-term credentials (answers are authenticated successes / 401 challenges), error responses, early timer calls and overlapping requests.",
          "delay and gap menus; tolerance from the property statement", "4/C15"),
  "C16": ("exploration", "E1", "exhaustive enumeration of all chunkings with <=3 cuts (every cut position, empty and one-byte chunks) of enumerated streams x buffer sizes, reference splitter as oracle",
-         "For every stream of 1-3 packets from the size menu every chunking with up to 3 cuts (short streams) or 2 cuts (long) and every equal-piece chunking is fed to the real reassembler; packets, consumed counts and missing-byte reports are compared with a reference splitter; error streams must be reported at the chunk completing the header.",
+         "For every stream of 1-3 packets from the size menu every chunking with up to 3 cuts (short streams) or 2 cuts (long) and every equal-piece chunking is fed to the real reassembler; packets, consumed counts and missing-byte reports are compared with a reference splitter; error streams must be reported at the chunk completing the header. Also every one of the 16,384 message types; error results are compared by kind, call index and the buffer handed back.",
          "packet size menu; cuts bound", "4/C16"),
  "C17": ("model_checking", "E3", "explicit-state exploration with every rejected-buffer kind inserted at every position of every explored history; direct snapshot equality and differential continuation",
-         "For every explored history, every rejected-buffer kind is inserted at every position: the call must return Err with no events and an identical full snapshot (except the documented violated marker), and the continuation must produce the same observations as the history without the insertion.",
+         "For every explored history, every rejected-buffer kind is inserted at every position: the call must return Err with no events and an identical full snapshot (except the documented violated marker), and the continuation must produce the same observations as the history without the insertion. Also: a buffer of a kind the statement lists as rejected that is ACCEPTED is a violation in itself; reply kinds without ERROR-CODE, with both MACs, with decoy fingerprints, challenges failing their own authentication.",
          "depth bound; the snapshot hook is the full client state", "4/C17"),
  "C18": ("exploration", "E1xE2", "bounded exhaustive pairwise comparison of all 17 decoder configurations over enumerated, unknown-attribute and single-fault-mutated messages",
          "For every enumerated message, every C09 sequence class, messages with unknown attributes and every single-fault mutant, the results of all 16 option combinations and the context-less decoder are compared pairwise against the stated relations (validation only filters, unknown-data only decorates, not-ignore is a supersequence, no-context equals default).",
          "bounded to the enumerated inputs", "4/C18"),
- "C19": ("exploration", "E1", "bounded exhaustive enumeration of constructor / accessor / conversion arguments (all strings up to length 3 over a 14-symbol alphabet, all u8/u16 domains) and of build-clone-mutate-read call sequences",
-         "Every string of length <=3 over a 14-symbol alphabet plus boundary lengths through every string-taking constructor, every u16/u8 through every conversion, every variant through every accessor, and every build/clone/mutate/read sequence within the stated bounds; no panic except the documented expect_* mismatch; clones compared with a Vec reference model.",
+ "C19": ("exploration", "E1", "bounded exhaustive enumeration of constructor / accessor / conversion arguments (all strings up to length 4 (thorough 5) over an 18-symbol alphabet, strings up to length 3 (4) over that alphabet widened by 13 normalisation-sensitive code points, all u8/u16 domains) and of build-clone-mutate-read call sequences",
+         "Every string of length <=4 (thorough <=5) over an 18-symbol alphabet (incl. base64 meta-characters), every string of length <=3 (4) containing one of 13 normalisation-sensitive code points, plus boundary lengths through every string-taking constructor, every u16/u8 through every conversion, every variant through every accessor, and every build/clone/mutate/read sequence within the stated bounds; no panic except the documented expect_* mismatch; clones compared with a Vec reference model.",
          "alphabet and length bounds", "4/C19"),
 }
 
